@@ -84,6 +84,26 @@ Example C08_witness :
   = ([[(1, 3%nat, 0%nat, [11;12;10])]], [(7, 0%Z); (8, 0%Z)]).
 Proof. vm_compute. reflexivity. Qed.
 
+(* Schedules: Channel.Empty, the deletion of a channel and the deletion of a topic against ANY
+   number of requeues / scans / puts in progress, under ANY interleaving - statements as the
+   CURRENT source has them: the discard never runs while a message is in somebody's hand, so
+   nothing that was there before outlives it (F18). *)
+From NSQV Require model.Handoff proofs.HandoffProofs proofs.HandoffSrc proofs.HandoffCompose.
+Theorem C08_discards_vs_moves_every_schedule : forall ks sched,
+  forallb HandoffProofs.locked ks = true ->
+  Handoff.missed (Handoff.run (Handoff.init ks HandoffCompose.src_channel_empty) sched) = false /\
+  Handoff.missed (Handoff.run (Handoff.init ks HandoffCompose.src_channel_delete) sched) = false /\
+  Handoff.missed (Handoff.run (Handoff.init ks HandoffCompose.src_topic_delete) sched) = false.
+Proof. exact HandoffCompose.discards_miss_nothing. Qed.
+Print Assumptions C08_discards_vs_moves_every_schedule.
+
+(* not vacuous: an Empty that takes no lock (the source before 00776ee) is refuted *)
+Theorem C08_unlocked_empty_refuted :
+  exists sched, let st := Handoff.run (Handoff.init [Handoff.Move] [Handoff.FDiscard]) sched in
+                Handoff.missed st = true /\ map Handoff.m_loc (Handoff.movers st) = [Handoff.InDst] /\ Handoff.rest st = [].
+Proof. exact HandoffProofs.unlocked_empty_refuted. Qed.
+Print Assumptions C08_unlocked_empty_refuted.
+
 (* The model is tied to the CURRENT source: the order-of-effects facts about nsqd's core
    functions that the model assumes (proofs/CoreSrcDefs.v) hold of the statement skeletons
    regenerated from /repo on this run (gen/CoreShape.v). *)
